@@ -43,10 +43,15 @@ def replay_case(chk, sub, path, timeout=600):
     return json.loads(p.stdout)
 
 
-def record_violations(chk, res, part=None):
-    """Turn the engine's violations into chk.violation calls. Returns the number recorded."""
+def record_violations(chk, res, part=None, order=None):
+    """Turn the engine's violations into chk.violation calls (vlib writes replay files for the
+    first 20 distinct keys only, so `order` - a sort key on the violation's key - puts the most
+    telling ones first). Returns the number recorded."""
     n = 0
-    for v in res.get("violations", []):
+    vs = res.get("violations", [])
+    if order:
+        vs = sorted(vs, key=lambda v: order(v["key"]))
+    for v in vs:
         replay = dict(v["replay"])
         if part:
             replay["part"] = part
